@@ -30,7 +30,7 @@
 EXTENDS MxFormulaBase, Json, IOUtils
 
 CONSTANTS SampleMod,   \* 1: every layout; n: about one layout in n (chosen by VERIF_SEED)
-          MaxOps,      \* operations after the capture (free mode)
+          MaxOps,      \* operations after the capture (free mode); scripted mode: 0 = print only
           Scripted,    \* TRUE: the operations follow Script(lay) (one history per layout)
           ExcuseKF,    \* TRUE: the situations of the known findings are excused
           Dump         \* TRUE: print every layout with its script once (spec -> code)
@@ -250,7 +250,8 @@ CaseJson ==
      text |-> src,
      script |-> Script(lay)]
 
-DumpCase == IF Dump /\ pc = "start" THEN PrintT(<<"MBT", ToJson(CaseJson)>>) ELSE TRUE
+\* (with MaxOps = 0 the scripted behaviours are only printed, not explored)
+DumpCase == IF Dump /\ pc = "start" THEN PrintT(<<"MBT", ToJson(CaseJson)>>) /\ MaxOps > 0 ELSE TRUE
 
 -----------------------------------------------------------------------------
 (* which known findings does the design as modelled exhibit?  (MC_MxFormula_kf.cfg, one    *)
